@@ -1,5 +1,7 @@
 import MidnightZK.Proofs.C05.Crt
 import MidnightZK.Proofs.C05.Gate
+import MidnightZK.Proofs.C05.Limbs
+import MidnightZK.Proofs.C05.Big
 import MidnightZK.Gen.C05Params
 /-!
 # C05 — foreign-field and big-integer gadgets are complete and sound
@@ -118,6 +120,19 @@ def isOk {α : Type} : Except String α → Bool
   | .ok _ => true
   | .error _ => false
 
+/-- The most significant limb's bound `2^msl` of `well_formed_log2_bounds` satisfies
+`m ≤ base^(n-1)·2^msl < 2m` (every residue has a well-formed representation, zero exactly one),
+`msl ≤ LOG2_BASE`, and `limbs_of_zero` is the well-formed digit vector of `m - 1`. -/
+def uniqueZeroOk (P : Params) : Bool :=
+  match P.wellFormedLog2Bounds with
+  | none => false
+  | some bs =>
+    let msl := bs.getLastD 0
+    decide (msl ≤ P.log2Base) && decide (1 ≤ P.nbLimbs)
+      && decide (P.m ≤ (2 : Int) ^ (P.log2Base * (P.nbLimbs - 1) + msl))
+      && decide ((2 : Int) ^ (P.log2Base * (P.nbLimbs - 1) + msl) < 2 * P.m)
+      && P.wellFormedOk (toLimbs P.log2Base P.nbLimbs (P.m - 1)).1
+
 /-- Side conditions of one parameter set: positive moduli, `check_params`, both bounds
 computations succeed, the gate layouts fit (`1 + #moduli ≤ NB_LIMBS` columns for `u, v…`), the
 well-formed bound of the most significant limb exists. -/
@@ -125,6 +140,7 @@ def setOk (P : Params) : Bool :=
   decide (0 < P.p) && decide (1 < P.m) && P.moduli.all (fun mj => decide (0 < mj))
     && P.checkParams && isOk P.mulBounds && isOk P.normBounds
     && decide (1 + P.moduli.length ≤ P.nbLimbs) && P.wellFormedLog2Bounds.isSome
+    && uniqueZeroOk P
 
 /-- Every compiled-in parameter set (secp256k1 base/scalar, BLS12-381 base, Curve25519
 base/scalar over the BLS12-381 scalar field, and the sets over the BLS12-381 base field) passes
@@ -154,7 +170,7 @@ theorem compiled_mul_gate_sound : ∀ P ∈ Gen.paramSets, ∃ b, P.mulBounds = 
   intro P hP
   have h := compiled_sets_configure P hP
   simp only [setOk, Bool.and_eq_true, decide_eq_true_eq, List.all_eq_true] at h
-  obtain ⟨⟨⟨⟨⟨⟨⟨_, hm⟩, hmods⟩, _⟩, hmul⟩, _⟩, _⟩, _⟩ := h
+  obtain ⟨⟨⟨⟨⟨⟨⟨⟨_, hm⟩, hmods⟩, _⟩, hmul⟩, _⟩, _⟩, _⟩, _⟩ := h
   obtain ⟨b, hb⟩ := isOk_exists _ hmul
   exact ⟨b, hb, fun xs ys zs u vjs h1 h2 h3 h4 h5 h6 h7 h8 h9 =>
     mul_gate_sound P b (by omega) (fun mj hmj => hmods mj hmj) hb xs ys zs u vjs
@@ -171,10 +187,213 @@ theorem compiled_norm_gate_sound : ∀ P ∈ Gen.paramSets, ∃ b, P.normBounds 
   intro P hP
   have h := compiled_sets_configure P hP
   simp only [setOk, Bool.and_eq_true, decide_eq_true_eq, List.all_eq_true] at h
-  obtain ⟨⟨⟨⟨⟨⟨⟨_, hm⟩, hmods⟩, _⟩, _⟩, hnorm⟩, _⟩, _⟩ := h
+  obtain ⟨⟨⟨⟨⟨⟨⟨⟨_, hm⟩, hmods⟩, _⟩, _⟩, hnorm⟩, _⟩, _⟩, _⟩ := h
   obtain ⟨b, hb⟩ := isOk_exists _ hnorm
   exact ⟨b, hb, fun xs zs u vjs h1 h2 h3 h4 h5 h6 h7 =>
     norm_gate_sound P b (by omega) (fun mj hmj => hmods mj hmj) hb xs zs u vjs
       h1 h2 h3 h4 h5 h6 h7⟩
+
+/-! ## Limb representation -/
+
+/-- `limbs_value_injective`: two limb vectors of the same length with every limb in `[0, base)`
+and the same value `Σ baseⁱ·xᵢ` are equal. Hence `assert_equal` (limb-wise equality of the two
+normalised operands) never identifies different integers, and public-input exposure (the limbs of
+the normalised element) determines the represented integer. -/
+theorem limbs_value_injective (L : Nat) (xs ys : List Int) (hl : xs.length = ys.length)
+    (hx : ∀ x ∈ xs, 0 ≤ x ∧ x < 2 ^ L) (hy : ∀ y ∈ ys, 0 ≤ y ∧ y < 2 ^ L)
+    (hv : limbsValue L xs = limbsValue L ys) : xs = ys :=
+  limbsValue_inj L xs ys hl hx hy hv
+
+example : limbsValue 4 [3, 15, 1] = 3 + 16 * 15 + 256 := by decide
+
+/-- `bi_to_limbs` (used by `assign`, `assign_fixed`, `as_public_input`, the witness of `assign_mul`
+and `normalize`): for a non-negative value the `n` digits are in `[0, base)` and recompose the
+value together with the remaining quotient (which the Rust function asserts to be zero). -/
+theorem to_limbs_roundtrip (L n : Nat) (v : Int) (hv : 0 ≤ v) :
+    (toLimbs L n v).1.length = n ∧ (∀ x ∈ (toLimbs L n v).1, 0 ≤ x ∧ x < 2 ^ L) ∧
+    limbsValue L (toLimbs L n v).1 + 2 ^ (L * n) * (toLimbs L n v).2 = v :=
+  let h := toLimbs_spec L n v hv
+  ⟨h.1, h.2.1, h.2.2.2⟩
+
+example : toLimbs 4 3 291 = ([3, 2, 1], 0) := by decide
+
+/-- The unique-zero shift (`x = 1 + Σ baseⁱ·xᵢ`): a well-formed limb vector (low limbs in
+`[0, base)`, most significant limb in `[0, 2^msl)`, with `base^(n-1)·2^msl < 2m` as
+`well_formed_log2_bounds` arranges) that represents a multiple of `m` represents `m` itself.
+Together with `limbs_value_injective`: ZERO HAS EXACTLY ONE WELL-FORMED REPRESENTATION, which is
+what `is_zero` (comparison of the normalised limbs with `limbs_of_zero`) relies on. -/
+theorem zero_unique (L k : Nat) (m : Int) (lo : List Int) (top : Int)
+    (hlo : ∀ x ∈ lo, 0 ≤ x ∧ x < 2 ^ L) (h0 : 0 ≤ top) (h1 : top < 2 ^ k)
+    (h2m : (2 : Int) ^ (L * lo.length + k) < 2 * m)
+    (hdvd : m ∣ 1 + limbsValue L (lo ++ [top])) :
+    1 + limbsValue L (lo ++ [top]) = m :=
+  wellFormed_zero_value L k m lo top hlo h0 h1 h2m hdvd
+
+example : (7 : Int) ∣ 1 + limbsValue 2 ([2] ++ [1]) ∧ (2 : Int) ^ (2 * 1 + 1) < 2 * 7 := by decide
+
+/-- `is_equal_foreign_respects_residue` (the comparison core of `is_zero` / `is_equal` /
+`assert_non_zero`): two well-formed limb vectors of the same shape that both represent the
+residue zero are the same vector; so "normalised limbs = `limbs_of_zero`" holds iff the element
+is zero, whichever well-formed representation the prover chose in the normalisation. -/
+theorem is_zero_respects_residue (L k : Nat) (m : Int) (lo lo' : List Int) (top top' : Int)
+    (hlen : lo.length = lo'.length) (hk : k ≤ L)
+    (hlo : ∀ x ∈ lo, 0 ≤ x ∧ x < 2 ^ L) (h0 : 0 ≤ top) (h1 : top < 2 ^ k)
+    (hlo' : ∀ x ∈ lo', 0 ≤ x ∧ x < 2 ^ L) (h0' : 0 ≤ top') (h1' : top' < 2 ^ k)
+    (h2m : (2 : Int) ^ (L * lo.length + k) < 2 * m)
+    (hz : m ∣ 1 + limbsValue L (lo ++ [top])) (hz' : m ∣ 1 + limbsValue L (lo' ++ [top'])) :
+    lo ++ [top] = lo' ++ [top'] := by
+  have e1 := wellFormed_zero_value L k m lo top hlo h0 h1 h2m hz
+  have e2 := wellFormed_zero_value L k m lo' top' hlo' h0' h1' (by rw [← hlen]; exact h2m) hz'
+  have hpow : (2 : Int) ^ k ≤ 2 ^ L := pow_le_pow_right₀ (by norm_num) hk
+  apply limbsValue_inj L _ _ (by simp [hlen])
+  · intro x hx
+    simp only [List.mem_append, List.mem_singleton] at hx
+    rcases hx with hx | rfl
+    · exact hlo x hx
+    · exact ⟨h0, by omega⟩
+  · intro x hx
+    simp only [List.mem_append, List.mem_singleton] at hx
+    rcases hx with hx | rfl
+    · exact hlo' x hx
+    · exact ⟨h0', by omega⟩
+  · omega
+
+/-- Lazy arithmetic, `add`: the limb-wise sum with the correction `+1` on the least significant
+limb represents the sum of the represented integers (`n ≥ 1` limbs). Bounds: see
+`limb_interval_add`. -/
+theorem add_limbs_value (L : Nat) (xs ys : List Int) (n : Nat) (hx : xs.length = n + 1)
+    (hy : ys.length = n + 1) :
+    1 + limbsValue L (ChipCfg.zip3 xs ys (1 :: List.replicate n 0) (fun a b k => a + b + k)) =
+      (1 + limbsValue L xs) + (1 + limbsValue L ys) := by
+  have e : (fun (a b k : Int) => a + b + k) = (fun a b k => 1 * a + 1 * b + k) := by
+    funext a b k; ring
+  rw [e, limbsValue_lin L 1 1 xs ys _ (by omega) (by simp [hy]), limbsValue_lsConst]; ring
+
+/-- Lazy arithmetic, `sub`: correction `-1`. -/
+theorem sub_limbs_value (L : Nat) (xs ys : List Int) (n : Nat) (hx : xs.length = n + 1)
+    (hy : ys.length = n + 1) :
+    1 + limbsValue L (ChipCfg.zip3 xs ys ((-1) :: List.replicate n 0) (fun a b k => a - b + k)) =
+      (1 + limbsValue L xs) - (1 + limbsValue L ys) := by
+  have e : (fun (a b k : Int) => a - b + k) = (fun a b k => 1 * a + (-1) * b + k) := by
+    funext a b k; ring
+  rw [e, limbsValue_lin L 1 (-1) xs ys _ (by omega) (by simp [hy]), limbsValue_lsConst]; ring
+
+/-- Lazy arithmetic, `mul_by_constant` (small constant) and `neg` (`k = -1`): the limb-wise
+scaling `k·xᵢ` with the correction `k - 1` on the least significant limb represents `k·x`. -/
+theorem scale_limbs_value (L : Nat) (k : Int) (xs : List Int) (n : Nat) (hx : xs.length = n + 1) :
+    1 + limbsValue L (ChipCfg.zip3 xs xs ((k - 1) :: List.replicate n 0) (fun a _ c => k * a + c)) =
+      k * (1 + limbsValue L xs) := by
+  have e : (fun (a _b c : Int) => k * a + c) = (fun a b c => k * a + 0 * b + c) := by
+    funext a b c; ring
+  rw [e, limbsValue_lin L k 0 xs xs _ rfl (by simp [hx]), limbsValue_lsConst]; ring
+
+/-- Bound bookkeeping of the lazy operations is interval arithmetic: if `x ∈ [lx, ux]` and
+`y ∈ [ly, uy]` then `x + y + c`, `x - y + c`, `k·x + c` (`k ≥ 0`) and `-x + c` lie in the
+intervals `add`, `sub`, `mul_by_constant` and `neg` record. -/
+theorem limb_interval_ops (x y lx ux ly uy c k : Int) (hx : lx ≤ x ∧ x ≤ ux) (hy : ly ≤ y ∧ y ≤ uy)
+    (hk : 0 ≤ k) :
+    (lx + ly + c ≤ x + y + c ∧ x + y + c ≤ ux + uy + c) ∧
+    (lx - uy + c ≤ x - y + c ∧ x - y + c ≤ ux - ly + c) ∧
+    (lx * k + c ≤ k * x + c ∧ k * x + c ≤ ux * k + c) ∧
+    (-ux + c ≤ -x + c ∧ -x + c ≤ -lx + c) := by
+  have h1 : lx * k ≤ k * x := by rw [Int.mul_comm k x]; exact Int.mul_le_mul_of_nonneg_right hx.1 hk
+  have h2 : k * x ≤ ux * k := by rw [Int.mul_comm k x]; exact Int.mul_le_mul_of_nonneg_right hx.2 hk
+  refine ⟨⟨by omega, by omega⟩, ⟨by omega, by omega⟩, ⟨by omega, by omega⟩, ⟨by omega, by omega⟩⟩
+
+/-! ## Big unsigned integers -/
+
+/-- `bound_of_addition` (biguint/types.rs) never under-approximates: `a < 2^b1`, `b < 2^b2` imply
+`a + b < 2^bound_of_addition(b1, b2)`. -/
+theorem bound_of_addition_sound (a b b1 b2 : Nat) (ha : a < 2 ^ b1) (hb : b < 2 ^ b2) :
+    a + b < 2 ^ boundOfAddition b1 b2 :=
+  boundOfAddition_spec a b b1 b2 ha hb
+
+example : boundOfAddition 0 5 = 5 ∧ boundOfAddition 96 96 = 97 ∧ boundOfAddition 3 0 = 3 := by decide
+
+/-- `nb_bits()` never under-approximates: limbs within their size bounds represent an integer
+below `2^nb_bits` (so `assign_bounded(…, x.nb_bits())` in `sub` / `div_rem` can hold the honest
+difference / quotient / remainder, and `normalize` allocates enough output limbs). -/
+theorem nb_bits_sound (lb : Nat) (ls sb : List Nat) (hl : ls.length = sb.length)
+    (h : ∀ t ∈ ls.zip sb, t.1 < 2 ^ t.2) : bigValue lb ls < 2 ^ nbBits lb sb :=
+  bigValue_lt_nbBits lb ls sb hl h
+
+example : nbBits 96 [96, 96, 5] = 197 := by decide +kernel
+
+/-- `add_carry_unique` (`div_rem_native_by_base`, the step of `normalize`): with the payload
+`x < p`, a quotient cell range-checked `q < 2^k`, a remainder cell `r < 2^lb` and
+`2^(k+lb) ≤ p` (guaranteed by `x_size_bound < F::NUM_BITS`), the native identity
+`x = q·2^lb + r (mod p)` pins `q = ⌊x / 2^lb⌋` and `r = x mod 2^lb`: a prover cannot choose another
+carry. -/
+theorem add_carry_unique (p lb k x q r : Nat) (hx : x < p) (hq : q < 2 ^ k) (hr : r < 2 ^ lb)
+    (hp : 2 ^ (k + lb) ≤ p) (hid : (q * 2 ^ lb + r) % p = x % p) :
+    q = x / 2 ^ lb ∧ r = x % 2 ^ lb :=
+  carry_unique p lb k x q r hx hq hr hp hid
+
+example : (3 * 2 ^ 4 + 5) % 101 = 53 % 101 ∧ 53 / 2 ^ 4 = 3 ∧ 53 % 2 ^ 4 = 5 := by decide
+
+/-- `normalize` preserves the represented integer: whenever the carry chain of the model runs
+(no native-overflow panic), the output limbs are in `[0, 2^lb)`, there are as many as inputs, and
+`Σ outᵢ·2^(lb·i) + 2^(lb·n)·(final carry) = Σ inᵢ·2^(lb·i)`; the circuit asserts the final carry
+to be zero. -/
+theorem normalize_value (lb numBits : Nat) (xs sbs ls : List Nat) (c : Nat)
+    (h : Big.normChain lb numBits 0 0 xs sbs = .ok (ls, c)) :
+    ls.length = xs.length ∧ (∀ l ∈ ls, l < 2 ^ lb) ∧
+      bigValue lb ls + 2 ^ (lb * xs.length) * c = bigValue lb xs := by
+  have := normChain_spec lb numBits xs sbs 0 0 ls c h
+  simpa using this
+
+example : (match Big.normChain 4 255 0 0 [17, 35, 1] [6, 6, 1] with
+    | .ok r => r == ([1, 4, 3], 0)
+    | .error _ => false) = true := by decide +kernel
+
+/-- `add`: limb-wise addition (before normalisation) adds the represented integers, whatever
+the two lengths. -/
+theorem add_limbs_sound (lb : Nat) (xs ys : List Nat) :
+    bigValue lb (Big.zipAddLimbs xs ys) = bigValue lb xs + bigValue lb ys :=
+  zipAddLimbs_value lb xs ys
+
+/-- `mul_limbs_sound`: the schoolbook products `limb[k] = Σ_{i+j=k} xᵢ·yⱼ` that `mul` accumulates
+(before normalisation) represent the product of the represented integers. -/
+theorem mul_limbs_sound (lb : Nat) (xs ys : List Nat) :
+    bigValue lb (Big.mulLimbs xs ys) = bigValue lb xs * bigValue lb ys :=
+  mulLimbs_value lb xs ys
+
+example : Big.mulLimbs [3, 2] [5, 7, 1] = [15, 31, 17, 2] := by decide
+
+/-- `assert_equal` / `is_equal` on BigUints are exact: normalised limb vectors of the same length
+with the same value are equal (and equal vectors have equal values). -/
+theorem big_limbs_injective (lb : Nat) (xs ys : List Nat) (hl : xs.length = ys.length)
+    (hx : ∀ x ∈ xs, x < 2 ^ lb) (hy : ∀ y ∈ ys, y < 2 ^ lb)
+    (hv : bigValue lb xs = bigValue lb ys) : xs = ys :=
+  bigValue_inj lb xs ys hl hx hy hv
+
+/-- `div_rem_sound`: the two constraints of `div_rem` (`x = q·y + r` as integers, enforced through
+`mul`, `add`, `assert_equal` on normalised limbs, and `r < y`) pin quotient and remainder. -/
+theorem div_rem_sound (x y q r : Nat) (h1 : x = q * y + r) (h2 : r < y) :
+    q = x / y ∧ r = x % y := by
+  subst h1
+  have hy : 0 < y := by omega
+  constructor
+  · rw [Nat.add_comm, Nat.add_mul_div_right _ _ hy, Nat.div_eq_of_lt h2, Nat.zero_add]
+  · rw [Nat.add_comm, Nat.add_mul_mod_self_right, Nat.mod_eq_of_lt h2]
+
+example : 17 = 3 * 5 + 2 ∧ 2 < 5 := by decide
+
+/-- `lower_than_sound`: the fold of `geq` over normalised limb vectors of equal length (least
+significant first, `acc := xᵢ > yᵢ ∨ (xᵢ = yᵢ ∧ acc)`, initial `true`) is the comparison of the
+represented integers; `lower_than` is its negation. -/
+theorem lower_than_sound (lb : Nat) (xs ys : List Nat) (hl : xs.length = ys.length)
+    (hx : ∀ x ∈ xs, x < 2 ^ lb) (hy : ∀ y ∈ ys, y < 2 ^ lb) :
+    Big.geqFold xs ys true = decide (bigValue lb xs ≥ bigValue lb ys) := by
+  rw [geqFold_spec lb xs ys true hl hx hy]
+  by_cases h : bigValue lb xs > bigValue lb ys
+  · have : bigValue lb xs ≥ bigValue lb ys := by omega
+    simp [h, this]
+  · by_cases h2 : bigValue lb xs = bigValue lb ys
+    · simp [h2]
+    · have : ¬ bigValue lb xs ≥ bigValue lb ys := by omega
+      simp [h, h2, this]
+
+example : Big.geqFold [5, 1] [9, 0] true = true ∧ Big.geqFold [5, 0] [9, 0] true = false := by decide
 
 end MidnightZK.C05
